@@ -4,7 +4,7 @@ import json, os, re, glob
 VERIF = os.path.dirname(os.path.dirname(os.path.abspath(__file__)))
 CAUGHT = {
  'C01-resume-scan': ('./check C01 --tier quick', 'idempotence / no-side-and-base obligations sat at arity 7; reproduced natively'),
- 'C02-smallvec-spill': ('./check C02 --tier thorough', 'counting-oracle obligations sat at arity 9 (quick stops at arity 7 and does not see it); reproduced natively'),
+ 'C02-smallvec-spill': ('./check C02 --tier quick', 'arity9-*-cancelling (arity 9 restricted to inputs with >= 4 equal add/remove pairs, added after the seed): counting-oracle obligations sat, reproduced natively. Before that job only the thorough tier (all patterns of arity 9) caught it; the quick tier stopped at arity 7'),
  'C03-histogram-hash-class': ('./check C03 --tier quick', 'determinism query between paths (and matching-equality under the comparator) sat for the line tokenizer jobs'),
  'C04-first-base-fastpath': ('./check C04 --tier quick', '5-way one-line merges: whole-content cancellation rule and hunk-wise rule sat; reproduced natively'),
  'C05-short-marker-runs': ('./check C05 --tier quick', 'run-of-6 look-alike shapes in Diff/DiffExperimental: "materialized conflict parses back" sat; reproduced natively'),
